@@ -512,7 +512,7 @@ def run(report, p):
     )
     allowed_mods = (".generator", ".hashlist", ".hashlist_xml_parser")
     for fq, f in sorted(p.funcs.items()):
-        if not f.module.name.startswith("ascmhl") or f.module.name in unshipped_modules(p):
+        if not f.module.name.startswith("ascmhl") or f.module.name in unshipped:
             continue
         for n in walk_no_nested(f.node):
             if isinstance(n, (ast.Assign, ast.AugAssign)):
